@@ -194,8 +194,8 @@ func vFamilies(thorough bool) []map[string][]vRule {
 		if len(r) == 0 {
 			continue
 		}
-		// Root alone
-		out = append(out, map[string][]vRule{"Root": r})
+		// Root alone, and with a state that has no rules (a legal target of push and include)
+		out = append(out, map[string][]vRule{"Root": r}, map[string][]vRule{"Root": r, "A": {}})
 		for _, a := range subs {
 			if len(a) == 0 {
 				continue
@@ -217,6 +217,7 @@ func vFamilies(thorough bool) []map[string][]vRule {
 func toRules(states map[string][]vRule) Rules {
 	rules := Rules{}
 	for s, rs := range states {
+		rules[s] = []Rule{}
 		for _, r := range rs {
 			rules[s] = append(rules[s], r.rule())
 		}
@@ -255,7 +256,7 @@ func newNoPanic(rules Rules) (def *StatefulDefinition, err error, panicked inter
 // matches start at offset 0 (the rulesOK invariant Next's proof assumes: C03, C04, C07).
 func TestVerif_C03C04C07_New(t *testing.T) {
 	res := &verifResult{Check: "lexer.New", Property: "C03 C04 C07", Exhaustive: true,
-		Bound: "all rule maps with states Root (1-2 rules over the full alphabet), optional A (1-3 rules over {Ident, ws, Close/pop, return}; thorough: also 1-2 over the full alphabet, plus optional B with 1 rule) over the rule alphabet of vAlphabet (plain / lower-case / underscore-initial names, metacharacter and unbalanced patterns, push, pop, include, return; a non-ASCII lower-case name; a rule named EOF; thorough adds unknown targets and digit-initial names); plus 6 rule maps with chains of includes over 3-4 states and 3 with state names needing JSON escapes / a user rule named returnToParent; include cycles excluded",
+		Bound: "all rule maps with states Root (1-2 rules over the full alphabet), optional A (0 rules, or 1-3 rules over {Ident, ws, Close/pop, return}; thorough: also 1-2 over the full alphabet, plus optional B with 1 rule) over the rule alphabet of vAlphabet (plain / lower-case / underscore-initial names, metacharacter and unbalanced patterns, push, pop, include, return; a non-ASCII lower-case name; a rule named EOF; thorough adds unknown targets and digit-initial names); plus 6 rule maps with chains of includes over 3-4 states and 3 with state names needing JSON escapes / a user rule named returnToParent; include cycles excluded",
 		Rule: "distinct rule maps; non-trivial = accepted by New and containing an action, include or return"}
 	seen := map[string]bool{}
 	for _, states := range vFamilies(verifThorough()) {
